@@ -676,8 +676,12 @@ func init() {
 		if x, ok := a[0].(float64); ok {
 			return int64(math.Float64bits(x))
 		}
-		i.unsupported("math.Float64bits on a symbolic float")
-		return nil
+		// symbolic: a fresh 64-bit word b with frombits(b) = x (for a NaN any NaN pattern)
+		x := a[0].(*Term)
+		i.fpBitsSeq++
+		b := i.tt.Var(fmt.Sprintf("fpbits!%d", i.fpBitsSeq), bvSort(64))
+		i.assumeTerm(i.tt.Eq(i.tt.mk("fp.frombits", SFP64, 0, 0, 0, "", b), x))
+		return b
 	})
 	reg("math.Float64frombits", func(i *Interp, fr *frame, a []value) value {
 		if x, ok := a[0].(int64); ok {
